@@ -620,7 +620,7 @@ Print Assumptions vm_step_axis_scaling_equivariant.
 (* The fitted covariance matrix is symmetric and its diagonal (the class variances) non-negative
    for non-negative posterior weights; Z is never 0 (floor read from the source). *)
 Theorem vm_step_covariance_symmetric_nonneg :
-  forall P xa xb, vm_cov P xa xb == vm_cov P xb xa /\ (nonneg P -> 0 <= vm_cov P xa xa) /\ 0 < vm_Z P.
+  forall P xa xb, vm_cov P xa xb == vm_cov P xb xa /\ (Proofs1.nonneg P -> 0 <= vm_cov P xa xa) /\ 0 < vm_Z P.
 Proof. intros P xa xb. split; [apply vm_cov_sym|split; [apply vm_var_nonneg|apply vm_Z_pos]]. Qed.
 Print Assumptions vm_step_covariance_symmetric_nonneg.
 
